@@ -95,6 +95,22 @@ MUTANTS = [
     # ---- C18
     dict(id="M120", expect=["C18", "C01"], file=TY, old="let mut opad = [0x5c_u8; MAXBLOCKLEN];", new="let mut opad = [0x5a_u8; MAXBLOCKLEN];", note="HMAC opad constant"),
     dict(id="M121", expect=["C18"], file=D, old="        128\n", new="        64\n", nth=0, note="a 128-byte block length becomes 64 (SHA-512 or BLAKE2b)"),
+    dict(id="M122", expect=["C18", "C01"], file=TY, old="for count in 0..key.len() {", new="for count in 1..key.len() {", note="HMAC skips the first key byte"),
+    dict(id="M123", expect=["C18", "C01"], file=TY, old="opad[count] ^= key[count];", new="opad[count] ^= key[key.len() - 1 - count];", note="HMAC opad xored with the reversed key (ipad correct)"),
+    # ---- second batch: deeper / symmetric deviations
+    dict(id="M201", expect=["C01"], file=S, old="        self.inner.ck = hkdf_output.0;\n        self.cipherstate.set(&cipher_key, 0);\n        self.inner.k = cipher_key;\n        self.inner.has_key = true;", new="        self.inner.ck = hkdf_output.1;\n        self.cipherstate.set(&cipher_key, 0);\n        self.inner.k = cipher_key;\n        self.inner.has_key = true;", note="mix_key: ck taken from HKDF output 2"),
+    dict(id="M202", expect=["C01"], file=S, old="        copy_slices!(self.inner.h, &mut self.inner.ck);\n", new="", note="InitializeSymmetric forgets ck = h"),
+    dict(id="M203", expect=["C01", "C02"], file=S, old="self.hasher.hkdf(&self.inner.ck[..hash_len], &[0_u8; 0], 2, out1, out2, &mut []);", new="self.hasher.hkdf(&self.inner.h[..hash_len], &[0_u8; 0], 2, out1, out2, &mut []);", note="Split keyed by h instead of ck"),
+    dict(id="M204", expect=["C03", "C01"], file=S, old="        self.mix_hash(&out[..output_len]);\n        Ok(output_len)", new="        self.mix_hash(plaintext);\n        Ok(output_len)", note="EncryptAndHash mixes the plaintext (paired with M011 both sides agree)"),
+    dict(id="M205", expect=["C01", "C08"], file=H, old="(DhToken::Se, true) | (DhToken::Es, false) => (&self.s, &self.re),\n            (DhToken::Es, true) | (DhToken::Se, false) => (&self.e, &self.rs),", new="(DhToken::Se, true) | (DhToken::Es, true) => (&self.s, &self.re),\n            (DhToken::Es, false) | (DhToken::Se, false) => (&self.e, &self.rs),", note="es/se role table wrong"),
+    dict(id="M206", expect=["C01", "C08"], file=H, old="                    Some(psk) => {\n                        self.symmetricstate.mix_key_and_hash(&psk);\n                    },", new="                    Some(psk) => {\n                        self.symmetricstate.mix_key(&psk);\n                    },", nth="all", note="psk token uses MixKey instead of MixKeyAndHash (both sides)"),
+    dict(id="M207", expect=["C04", "C01"], file=C, old="self.encrypt_ad(&[0_u8; 0], plaintext, out)", new="self.encrypt_ad(&[0_u8; 1], plaintext, out)", note="transport AD not empty on write"),
+    dict(id="M208", expect=["C14", "C10"], file=H, old="let payload_len = ptr.len() - if self.symmetricstate.has_key() { TAGLEN } else { 0 };", new="let payload_len = ptr.len().saturating_sub(TAGLEN);", note="payload length subtracts the tag even without a key"),
+    dict(id="M209", expect=["C16", "C02"], file=ST, old="let cipher = if self.initiator { &self.cipherstates.1 } else { &self.cipherstates.0 };\n            cipher.decrypt(nonce, payload, message)", new="let cipher = if self.initiator { &self.cipherstates.0 } else { &self.cipherstates.1 };\n            cipher.decrypt(nonce, payload, message)", note="stateless read uses the sending key"),
+    dict(id="M210", expect=["C17"], file=H, old="self.rs.get().map(|rs| &rs[..self.s.pub_len()])", new="self.re.get().map(|rs| &rs[..self.s.pub_len()])", note="get_remote_static reports the remote ephemeral"),
+    dict(id="M211", expect=["C20", "C18"], file=D, old="CipherChoice::AESGCM => Some(Box::<CipherAesGcm>::default()),", new="CipherChoice::AESGCM => Some(Box::<CipherChaChaPoly>::default()),", note="default resolver hands out ChaChaPoly for AESGCM"),
+    dict(id="M213", expect=["C05", "C04"], file=T, old="                if self.initiator { &mut self.cipherstates.1 } else { &mut self.cipherstates.0 };\n            cipher.decrypt(message, payload)", new="                if self.initiator { &mut self.cipherstates.0 } else { &mut self.cipherstates.1 };\n            cipher.decrypt(message, payload)", note="stateful read uses the sending cipher state"),
+    dict(id="M214", expect=["C08"], file=H, old="        symmetricstate.initialize(&params.name);", new="        symmetricstate.initialize(&params.name.to_uppercase());", note="protocol name case-folded before hashing"),
     # ---- C19
     dict(id="M130", expect=["C19"], file=S, old="            self.cipherstate.decrypt_ad(&self.inner.h[..hash_len], data, out)?\n", new="            match self.cipherstate.decrypt_ad(&self.inner.h[..hash_len], data, out) {\n                Ok(n) => n,\n                Err(e) => {\n                    let n = out.len().min(data.len());\n                    out[..n].copy_from_slice(&data[..n]);\n                    return Err(e);\n                },\n            }\n", note="on failure the ciphertext is copied out (not plaintext, but a new writer of `out` on the error path)"),
     # ---- C20
